@@ -145,7 +145,10 @@ def _enum_tables(F):
     return out
 
 
-def at_rule(F, rep, rid, exempt, enum_exempt=()):
+def at_rule(F, rep, rid, exempt, enum_exempt=(), parallel=None):
+    """parallel: {(function name, receiver text): (other container text, reason)} - vectors that are filled pairwise, so that an index which is in
+    range for the one (a fact `i < other.size()` at the access) is in range for the other."""
+    parallel = parallel or {}
     etabs = _enum_tables(F)
     n_sites = 0
     for f in sorted(F.funcs.values(), key=lambda f: (f.file, f.line)):
@@ -175,6 +178,10 @@ def at_rule(F, rep, rid, exempt, enum_exempt=()):
                     continue
             rc = ff(f).rendered_conds_at(n) or set()
             how = None
+            par_ = parallel.get((f.name, rt))
+            if par_ is not None and any(t and c == '%s < %s.size()' % (at, par_[0]) for c, t in rc):
+                rep.exempt(rid, key, '%s (index bounded by %s.size())' % (par_[1], par_[0]))
+                continue
             # global enum-keyed table
             if r.get('k') == 'Ref' and r.get('dk') == 'global':
                 et = [(k, v) for k, v in etabs.items() if k[0] == r['n'] and (k[1] == f.file or not k[1].endswith('.cpp'))]
